@@ -22,6 +22,9 @@ GROUPS += [
     G("numbers.nextprime_window", "harness/C12/numbers.c", "h_nextprime_window", NUM, level="X", backend="native", search=1, ndebug=True, timeout=1800,
       fn=["priNextPrime", "priIsSieved", "priRMTest"],
       note="level X: every a < 2^13 x six factor-base sizes x n in {1, 2} against the oracle; not a contract"),
+    G("params.alter.search", "harness/C12/params.c", "h_params_alter", ["src/crypto/bign/bign_params.c", "src/crypto/bign/bign_lcl.c", "src/crypto/bign96.c"],
+      level="N", backend="native", search=400, timeout=1800, fn=["bignParamsVal", "bign96ParamsVal"],
+      note="standard bign / bign96 parameters with a single-bit alteration of p, a, b, seed, q, yG, or yG replaced by p - yG: must be rejected; NOT proof"),
     G("numbers.irred_window", "harness/C12/numbers.c", "h_irred_window", NUM, level="X", backend="native", search=1, ndebug=True, timeout=1800,
       fn=["ppIsIrred"], note="level X: every binary polynomial of degree 1..13 against trial division; not a contract"),
 ]
@@ -31,5 +34,5 @@ _c02 = importlib.util.module_from_spec(_sp); _sp.loader.exec_module(_c02)
 GROUPS += [g for g in _c02.GROUPS if g["name"].startswith(("flow.pubkeyval", "flow.keypairval", "roundtrip"))]
 TRUSTED = []
 ASSUMPTIONS = []
-NOT_COVERED = ["bignParamsVal and the g12s/stb99/dstu/pfok/bels validators (flow contracts not built)",
+NOT_COVERED = ["the g12s/stb99/dstu/pfok/bels parameter validators; bignParamsVal only by native alteration search",
                "priIsPrime / priRMTest / priNextPrime beyond one word and ppIsIrred beyond degree 13; ecpIsValid, ecpIsSafeGroup: correctness of the verdict is number theory"]
